@@ -248,23 +248,28 @@ def make_case(rng, ctx, idx, want, opts=None):
         if "partial" in want and rng.random() < (0.5 if len(pieces) < 12 else 0.08):
             np_ += 1
             s.append("result p%d" % np_)
+            if "nbest" in want and rng.random() < 0.3:       # an interim N-best list (builds a lattice on the way)
+                s.append("nbest p%d %d 1" % (np_, rng.choice([2, 5])))
             if "lattice" in want and rng.random() < 0.5:
                 s.append("lattice p%d %d" % (np_, 1 if "latscores" in want else 0))
             if "alignment" in want and rng.random() < 0.4:
                 s.append("alignment p%d" % np_)
             if "json" in want and rng.random() < 0.5:
-                s.append("json p%d %d %d" % (np_, rng.choice([0, 1500, 1234567]), rng.choice([0, 1, 2])))
+                s.append("json p%d %d %d" % (np_, rng.choice([0, 1500, 1234567, 100000123, 999999999]), rng.choice([0, 1, 2])))
     s.append("end")
     s.append("result fin")
+    nb_first = "nbest" in want and rng.random() < 0.5     # the N-best list asked before anything fetched the final lattice
+    if nb_first:
+        s.append("nbest fin %d 1" % rng.choice([3, 10, 40]))
     if "lattice" in want:
         s.append("lattice fin %d" % (1 if "latscores" in want else 0))
-    if "nbest" in want:
-        s.append("nbest fin %d" % rng.choice([3, 10, 40]))
+    if "nbest" in want and not nb_first:
+        s.append("nbest fin %d 1" % rng.choice([3, 10, 40]))
     if "alignment" in want:
         s.append("alignment fin")
     if "json" in want:
         for lvl in (0, 1, 2):
-            s.append("json fin %d %d" % (rng.choice([0, 1500, 1234567]), lvl))
+            s.append("json fin %d %d" % (rng.choice([0, 1500, 1234567, 100000123, 999999999]), lvl))
     s.append("free")
     eid = "%s-%s-%s-%s%s#%d" % (gkind, aud, beam, mode, ("-" + synth) if synth else "", idx)
     return eid, s
